@@ -1313,3 +1313,208 @@ theorem qInv_step (fl : Bytes → Nat) (s : QState) (op : QOp) (h : QInv fl s)
             · rw [h2]; exact h.pflg r (by rw [hp]; simp)
             · exact h.iflg e' h2
           · exact fun r' hr' => h.pflg r' (by rw [hp]; simp [hr'])
+
+/-! ### locality of the reader, and start-up (`checkFile`) on an ARBITRARY file -/
+
+theorem readFull_local (f g : Bytes) (off n : Nat) (x : Bytes)
+    (hag : g.take (off + n) = f.take (off + n)) (h : readFull f off n = some x) :
+    readFull g off n = some x := by
+  unfold readFull at h ⊢
+  by_cases h0 : n = 0
+  · simpa [h0] using h
+  · simp only [h0, if_false] at h ⊢
+    by_cases hl : (f.drop off).length < n
+    · rw [if_pos hl] at h; contradiction
+    · simp only [hl, if_false] at h
+      have hfl : off + n ≤ f.length := by rw [List.length_drop] at hl; omega
+      have hgl : off + n ≤ g.length := by
+        have := congrArg List.length hag
+        simp only [List.length_take] at this
+        omega
+      have hl' : ¬ ((g.drop off).length < n) := by rw [List.length_drop]; omega
+      simp only [hl', if_false]
+      have e1 : (g.drop off).take n = (g.take (off + n)).drop off := by
+        rw [List.drop_take]; congr 1; omega
+      have e2 : (f.drop off).take n = (f.take (off + n)).drop off := by
+        rw [List.drop_take]; congr 1; omega
+      rw [e1, hag, ← e2]
+      exact h
+
+theorem readFull_bound (f : Bytes) (off n : Nat) (x : Bytes) (h : readFull f off n = some x) :
+    n = 0 ∨ off + n ≤ f.length := by
+  unfold readFull at h
+  by_cases h0 : n = 0
+  · exact Or.inl h0
+  · right
+    simp only [h0, if_false] at h
+    by_cases hl : (f.drop off).length < n
+    · rw [if_pos hl] at h; contradiction
+    · rw [List.length_drop] at hl; omega
+
+theorem take_agree {α : Type} (f g : List α) (m M : Nat) (h : g.take M = f.take M) (hm : m ≤ M) :
+    g.take m = f.take m := by
+  have : (g.take M).take m = (f.take M).take m := by rw [h]
+  rw [List.take_take, List.take_take, Nat.min_eq_left hm] at this
+  exact this
+
+/-- a delivering step reads only `18 + len` bytes at `p`, all inside the file, and advances at least that far -/
+theorem scanStep_local (f : Bytes) (p : Nat) (r : Record) (adv : Nat) (hf : f.length + 274 ≤ 4294967296)
+    (h : scanStep f p = .deliver r adv) :
+    ∃ len, p + 18 + len ≤ f.length ∧ 18 + len ≤ adv ∧
+      ∀ g : Bytes, g.take (p + 18 + len) = f.take (p + 18 + len) → scanStep g p = .deliver r adv := by
+  unfold scanStep at h
+  cases hh : readFull f p 18 with
+  | none => rw [hh] at h; contradiction
+  | some hb =>
+    rw [hh] at h
+    simp only at h
+    cases hbd : readFull f (p + 18) (leVal ((hb.drop 4).take 4)) with
+    | none => rw [hbd] at h; contradiction
+    | some bb =>
+      rw [hbd] at h
+      simp only at h
+      have h18 : p + 18 ≤ f.length := by
+        rcases readFull_bound _ _ _ _ hh with h0 | h0
+        · omega
+        · exact h0
+      have hlen : p + 18 + leVal ((hb.drop 4).take 4) ≤ f.length := by
+        rcases readFull_bound _ _ _ _ hbd with h0 | h0
+        · omega
+        · omega
+      refine ⟨leVal ((hb.drop 4).take 4), hlen, ?_, ?_⟩
+      · -- the advance
+        split at h
+        · contradiction
+        · split at h
+          · contradiction
+          · contradiction
+          · injection h with _ h2
+            have hu : GoSem.uadd 4294967296 18 (leVal ((hb.drop 4).take 4)) = 18 + leVal ((hb.drop 4).take 4) := by
+              unfold GoSem.uadd; omega
+            rw [hu] at h2
+            have := align_spec (18 + leVal ((hb.drop 4).take 4)) (by omega)
+            omega
+      · intro g hag
+        unfold scanStep
+        have hg1 := readFull_local f g p 18 hb (take_agree f g _ _ hag (by omega)) hh
+        rw [hg1]
+        simp only
+        have hg2 := readFull_local f g (p + 18) (leVal ((hb.drop 4).take 4)) bb hag hbd
+        rw [hg2]
+        exact h
+
+theorem scanLoop_off_mono {step : Bytes → Nat → Step} (fuel : Nat) (f : Bytes) (p : Nat) (acc : List Record) :
+    p ≤ (scanLoop step fuel f p acc).off := by
+  induction fuel generalizing p acc with
+  | zero => unfold scanLoop; split <;> exact Nat.le_refl _
+  | succ n ih =>
+    unfold scanLoop
+    cases step f p with
+    | eof => exact Nat.le_refl _
+    | err e => exact Nat.le_refl _
+    | deliver r adv =>
+      simp only
+      split
+      · exact Nat.le_refl _
+      · exact Nat.le_trans (Nat.le_add_right _ _) (ih (p + adv) (acc ++ [r]))
+
+theorem scanLoop_fuel_mono {step : Bytes → Nat → Step} (hs : StepOK step) (fuel k : Nat) (f : Bytes) (p : Nat)
+    (acc : List Record) (h : (scanLoop step fuel f p acc).stop ≠ .fuel) :
+    scanLoop step (fuel + k) f p acc = scanLoop step fuel f p acc := by
+  induction fuel generalizing p acc with
+  | zero =>
+    have hle : f.length ≤ p := by
+      unfold scanLoop at h
+      by_cases hl : f.length ≤ p
+      · exact hl
+      · simp [hl] at h
+    rw [Nat.zero_add, scanLoop_at_end hs _ _ _ _ hle]
+    simp [scanLoop, hle]
+  | succ n ih =>
+    have e : n + 1 + k = (n + k) + 1 := by omega
+    rw [e]
+    unfold scanLoop at h ⊢
+    cases hst : step f p with
+    | eof => rfl
+    | err e => rfl
+    | deliver r adv =>
+      rw [hst] at h
+      simp only at h ⊢
+      by_cases h0 : adv = 0
+      · simp [h0]
+      · simp only [h0, if_false] at h ⊢
+        exact ih _ _ h
+
+@[simp] theorem truncateTo_length (f : Bytes) (n : Nat) : (truncateTo f n).length = n := by
+  simp only [truncateTo, List.length_append, List.length_take, zeros_length]; omega
+
+theorem truncateTo_take (f : Bytes) (off m : Nat) (tail : Bytes) (h1 : m ≤ off) (h2 : m ≤ f.length) :
+    (truncateTo f off ++ tail).take m = f.take m := by
+  unfold truncateTo
+  rw [List.append_assoc, List.take_append_of_le_length (by rw [List.length_take]; omega), List.take_take,
+    Nat.min_eq_left h1]
+
+/-- the loop on the truncated file followed by freshly written records reproduces the run on the original
+    file and then delivers exactly the new records -/
+theorem scanLoop_truncated (f : Bytes) (hf : f.length + 274 ≤ 4294967296) (ss : List Stamped)
+    (hss : ∀ s ∈ ss, Sealed s) (off : Nat) (recs : List Record) (fuel : Nat) (p : Nat) (acc : List Record)
+    (h : scanLoop scanStep fuel f p acc = ⟨.eof, off, recs⟩) :
+    scanLoop scanStep (fuel + (ss.length + 1)) (truncateTo f off ++ encodeAll ss) p acc
+      = ⟨.eof, off + (encodeAll ss).length, recs ++ ss.map (·.r)⟩ := by
+  have hw : ∀ s ∈ ss, WF s.r := fun s hs => (hss s hs).1
+  -- what happens once the run on `f` has reached its end: position `off`, accumulator `recs`
+  have hend : ∀ fuel', scanLoop scanStep (fuel' + (ss.length + 1)) (truncateTo f off ++ encodeAll ss) off recs
+      = ⟨.eof, off + (encodeAll ss).length, recs ++ ss.map (·.r)⟩ := by
+    intro fuel'
+    have := scanLoop_encodeAll (step := scanStep) ss (truncateTo f off) [] recs (fuel' + (ss.length + 1)) hw
+      (fun pre post x hx => scanStep_enc pre post x (hss x hx)) (by omega)
+    simp only [List.append_nil, truncateTo_length] at this
+    rw [this, scanLoop_at_end stepOK_live _ _ _ _ (by simp)]
+  induction fuel generalizing p acc with
+  | zero =>
+    unfold scanLoop at h
+    by_cases hl : f.length ≤ p
+    · simp only [hl, if_true] at h
+      injection h with _ h2 h3
+      subst h2; subst h3
+      exact hend 0
+    · simp [hl] at h
+  | succ n ih =>
+    have e : n + 1 + (ss.length + 1) = (n + (ss.length + 1)) + 1 := by omega
+    unfold scanLoop at h
+    cases hst : scanStep f p with
+    | eof =>
+      rw [hst] at h
+      simp only at h
+      injection h with _ h2 h3
+      subst h2; subst h3
+      exact hend (n + 1)
+    | err e' => rw [hst] at h; simp at h
+    | deliver r adv =>
+      rw [hst] at h
+      simp only at h
+      by_cases h0 : adv = 0
+      · simp [h0] at h
+      · simp only [h0, if_false] at h
+        obtain ⟨len, hl1, hl2, hloc⟩ := scanStep_local f p r adv hf hst
+        have hmono := scanLoop_off_mono (step := scanStep) n f (p + adv) (acc ++ [r])
+        rw [h] at hmono
+        simp only at hmono
+        have hG : scanStep (truncateTo f off ++ encodeAll ss) p = .deliver r adv :=
+          hloc _ (truncateTo_take f off _ _ (by omega) hl1)
+        rw [e, scanLoop_deliver _ _ _ _ _ _ hG h0]
+        exact ih _ _ h
+
+theorem scan_truncated (f : Bytes) (hf : f.length + 274 ≤ 4294967296) (ss : List Stamped)
+    (hss : ∀ s ∈ ss, Sealed s) (off : Nat) (recs : List Record) (h : scan f = ⟨.eof, off, recs⟩) :
+    scan (truncateTo f off ++ encodeAll ss) = ⟨.eof, off + (encodeAll ss).length, recs ++ ss.map (·.r)⟩ := by
+  have hmain := scanLoop_truncated f hf ss hss off recs (f.length + 1) 0 [] h
+  generalize truncateTo f off ++ encodeAll ss = G at hmain ⊢
+  show scanLoop scanStep (G.length + 1) G 0 [] = _
+  have hnf := scanLoop_no_fuel (step := scanStep) stepOK_live (G.length + 1) G 0 [] (by omega)
+  rcases Nat.le_total (G.length + 1) (f.length + 1 + (ss.length + 1)) with hc | hc
+  · obtain ⟨k, hk⟩ : ∃ k, f.length + 1 + (ss.length + 1) = G.length + 1 + k := ⟨_, (Nat.add_sub_cancel' hc).symm⟩
+    rw [hk, scanLoop_fuel_mono stepOK_live _ _ _ _ _ hnf] at hmain
+    exact hmain
+  · obtain ⟨k, hk⟩ : ∃ k, G.length + 1 = f.length + 1 + (ss.length + 1) + k := ⟨_, (Nat.add_sub_cancel' hc).symm⟩
+    rw [hk, scanLoop_fuel_mono stepOK_live _ _ _ _ _ (by rw [hmain]; simp), hmain]
